@@ -56,7 +56,8 @@ CONFIG = dict(
            "source (threading.local, restore in finally): every observation equals the lexically scoped reference semantics of the "
            "thread's own program (non-interference), the stored options after a call returns or is left by exception are those before "
            "it, for_task stubs iff recursion was not requested at every nesting depth, with_contexts=False empties contexts at every "
-           "depth. Tied to the code by differential comparison evaluated inside Coq on real threads stepped through enumerated/sampled "
+           "depth; every balanced operation list is the flattening of a program tree; the schedule enumeration used by the exhaustive "
+           "cases is complete. Tied to the code by differential comparison evaluated inside Coq on real threads stepped through enumerated/sampled "
            "interleavings of nested extract / extract_child / fill_context calls made from hooks."),
     design_ref="DESIGN.md section 5 C13",
     trusted_base=["model M_Options.v (store machine for current_options / push / extract_child / fill_context) is hand-written",
@@ -223,7 +224,7 @@ def specials():
 def make_inputs(tier, seed):
     rng = random.Random(seed * 7919 + 13)
     yield from specials()
-    n = 700 if tier == "quick" else 9000
+    n = 1500 if tier == "quick" else 7000
     for i in range(n):
         nt = rng.choice([1, 2, 2, 3, 3, 4])
         budget = {1: 14, 2: 12, 3: 9, 4: 7}[nt]
@@ -326,40 +327,48 @@ def _setup():
 
 
 class Ctl:
-    """steps the threads through the schedule: exactly one thread runs between two turn() calls"""
+    """steps the threads through the schedule: exactly one thread runs between two turn() calls.
+    One semaphore per thread; ending a step hands the token to the thread the schedule names
+    next (no broadcast, so a hand-over costs one wake-up)."""
 
-    def __init__(self, sched, nthreads, timeout=30.0):
+    def __init__(self, sched, nthreads, timeout=60.0):
         import threading
         self.sched, self.pos = list(sched), 0
-        self.cond = threading.Condition()
+        self.lock = threading.Lock()
+        self.sems = [threading.Semaphore(0) for _ in range(nthreads)]
         self.in_step = [False] * nthreads
         self.failed = None
         self.timeout = timeout
+        if self.sched and self.sched[0] < nthreads:
+            self.sems[self.sched[0]].release()
+
+    def _fail(self, msg):
+        if self.failed is None:
+            self.failed = msg
+            for s in self.sems:          # wake everybody; from now on nobody blocks
+                s.release()
 
     def _end_step(self, t):
-        if self.in_step[t]:
-            self.in_step[t] = False
-            self.pos += 1
-            self.cond.notify_all()
+        with self.lock:
+            if self.in_step[t]:
+                self.in_step[t] = False
+                self.pos += 1
+                if self.pos < len(self.sched):
+                    nxt = self.sched[self.pos]
+                    if nxt < len(self.sems):
+                        self.sems[nxt].release()
 
     def turn(self, t):
-        with self.cond:
-            self._end_step(t)
-            while self.failed is None:
-                if self.pos >= len(self.sched):
-                    self.failed = "thread %d wants a step after the schedule ended" % t
-                    self.cond.notify_all()
-                    break
-                if self.sched[self.pos] == t:
-                    break
-                if not self.cond.wait(self.timeout):
-                    self.failed = "timeout: thread %d waiting at position %d" % (t, self.pos)
-                    self.cond.notify_all()
-            self.in_step[t] = True
+        self._end_step(t)
+        if self.failed is None:
+            if not self.sems[t].acquire(timeout=self.timeout):
+                self._fail("timeout: thread %d waiting at position %d" % (t, self.pos))
+            elif self.failed is None and not (self.pos < len(self.sched) and self.sched[self.pos] == t):
+                self._fail("thread %d woken out of turn at position %d" % (t, self.pos))
+        self.in_step[t] = True
 
     def finish(self, t):
-        with self.cond:
-            self._end_step(t)
+        self._end_step(t)
 
 
 class Runner:
